@@ -780,30 +780,15 @@ fn pass(case: &W4Case, stats: &mut Vec<&'static str>, record_stats: bool) -> Opt
                             }
                             cur = next;
                         }
-                        // a name or value with an interior NUL cannot be handed to C: such an entry comes back with a
-                        // NULL field; it is left out of the comparison on both sides
-                        exp.retain(|(n, v)| !n.contains('\0') && !v.contains('\0'));
-                        got.retain(|(n, v)| !(n.is_empty() && v.is_empty()));
-                        let nul_entries = got.len();
-                        let _ = nul_entries;
+                        // a name or value with an interior NUL cannot be handed to C: that field comes back NULL (read as "")
+                        let mut exp: Vec<(String, String)> = exp
+                            .into_iter()
+                            .map(|(n, v)| (if n.contains('\0') { String::new() } else { n }, if v.contains('\0') { String::new() } else { v }))
+                            .collect();
                         got.sort();
                         exp.sort();
-                        // entries with one NULL field read as ("", v) or (n, ""): tolerated only if the native list had a NUL entry
                         if got != exp {
-                            let native_had_nul = window(tag, || {
-                                let mut twin = unsafe { (*a).clone() };
-                                twin.filter_headers(CList::native(&l.resp_headers), l.code, l.add_ids, None)
-                                    .iter()
-                                    .any(|h| h.name.contains('\0') || h.value.contains('\0'))
-                            });
-                            let mut g2 = got.clone();
-                            if native_had_nul {
-                                // drop the half-NULL entries: (name, "") or ("", value) that have no counterpart
-                                g2.retain(|e| exp.contains(e));
-                            }
-                            if g2 != exp {
-                                pr.add("header-roundtrip", format!("header_filter_filter: {got:?}, native {exp:?}"));
-                            }
+                            pr.add("header-roundtrip", format!("header_filter_filter: {got:?}, native {exp:?}"));
                         }
                     }
                 }
